@@ -823,3 +823,28 @@ CONTRACTS[ST + 'one_state'] = dict(
     ensures=_zs[:4] + ['forall(i, 0, 2 * N, result.ps[i] == 2)', 'result.r == 0', 'gram(result.gs, N)', 'bits2(result.gs)'],
     modifies=[], returns=STATE,
 )
+
+# ------------------------------------------------------------------ C09: embedding a small map on a subsystem (used by layer compilation)
+_eM = 'Repeat2(mask)'
+_eP = 'MaskPos(%s, 2 * len(mask))' % _eM
+CONTRACTS[ST + 'CliffordMap.embed'] = dict(
+    params=[('self', CMAP), ('small_map', CMAP), ('mask', 'bool1')],
+    requires=['rows(self.gs) == 2 * len(mask)', 'cols(self.gs) == 2 * len(mask)', 'len(self.ps) == 2 * len(mask)',
+              'rows(small_map.gs) == MaskCnt(%s, 2 * len(mask))' % _eM, 'cols(small_map.gs) == rows(small_map.gs)', 'len(small_map.ps) == rows(small_map.gs)'],
+    # rows and columns of the selected qubits carry the small table, everything else is untouched
+    ensures=['forall(r_, 0, 2 * len(mask), forall(c, 0, 2 * len(mask), self.gs[r_][c] == '
+             '(small_map.gs[%s[r_]][%s[c]] if (%s[r_] != 0 and %s[c] != 0) else old(self.gs)[r_][c])))' % (_eP, _eP, _eM, _eM),
+             'forall(c, 0, 2 * len(mask), self.ps[c] == (small_map.ps[%s[c]] if %s[c] != 0 else old(self.ps)[c]))' % (_eP, _eM),
+             'same_loc(result, self)', 'same_loc(self.gs, old(self.gs))', 'same_loc(self.ps, old(self.ps))'],
+    modifies=['self.gs', 'self.ps'], returns='=self',
+)
+
+# ------------------------------------------------------------------ C09: a layer is independent from a gate exactly when none of its gates shares a qubit with it
+LAYER_Q = {'cls': 'CliffordLayer', 'fields': {'gates': {'seq': GATE_Q}}}
+CONTRACTS[CI + 'CliffordLayer.independent_from'] = dict(
+    params=[('self', LAYER_Q), ('other_gate', GATE_Q)],
+    requires=[],
+    ensures=['iff(result, forall(k, 0, len(self.gates), forall(i, 0, len(self.gates[k].qubits), forall(j, 0, len(other_gate.qubits), '
+             'self.gates[k].qubits[i] != other_gate.qubits[j]))))'],
+    modifies=[], returns='bool',
+)
